@@ -29,7 +29,7 @@ ASSUMPTIONS = [
     "AND: the statement fixes 'launches only when every condition has a pending occurrence, and then consumes them'; how many launches result from several pending occurrences per condition is not asserted",
     "cron 'must yield' is asserted only where the statement is unambiguous: window shorter than the schedule's period, the scheduled minute not served yet, previous firing at least the minimum interval old",
 ]
-REQUIRED_HOOKS = ["occurrences", "loop_iterations", "launches_attributed", "cron_polls", "conc_schedules"]
+REQUIRED_HOOKS = ["occurrences", "loop_iterations", "launches_attributed", "cron_polls", "conc_schedules", "conc_cron_schedules", "conc_cron_conclusive"]
 
 
 def WORKERS(tier):
@@ -58,6 +58,15 @@ def gen_cases(tier, seed):
         cases.append({"kind": "conc", "backend": backend, "logic": "single", "strategy": "dfs", "p": 3 if thorough else 2, "seed": seed, "budget": 900 if thorough else 90, "reporter": False, "warm": True})
         if thorough:
             cases.append({"kind": "conc", "backend": backend, "logic": "or", "strategy": "dfs", "p": 2, "seed": seed, "budget": 600, "reporter": True, "warm": True})
+        # a runner re-registers the task's triggers (start-up of another process) while the loops serve a pending occurrence
+        cases.append({"kind": "conc", "backend": backend, "logic": "single", "strategy": "dfs", "p": 3 if thorough else 2, "seed": seed, "budget": 300 if thorough else 40, "reporter": False,
+                      "registrar": True, "warm": False})
+        cases.append({"kind": "conc", "backend": backend, "logic": "single", "strategy": "pct", "count": 1500 if thorough else 60, "seed": seed * 23 + 5, "budget": 200 if thorough else 25, "reporter": False,
+                      "registrar": True, "warm": True})
+        # one scheduled minute polled by two runners at once: on a store whose cron never fired and on one that served the minute before
+        for warm in (False, True):
+            cases.append({"kind": "conccron", "backend": backend, "strategy": "dfs", "p": 3 if thorough else 2, "seed": seed, "budget": 300 if thorough else 30, "warm": warm})
+            cases.append({"kind": "conccron", "backend": backend, "strategy": "pct", "count": 1500 if thorough else 60, "seed": seed * 19 + 3, "budget": 200 if thorough else 20, "warm": warm})
     for i in range(6 if thorough else 2):
         cases.append({"kind": "shared", "seed": seed * 30011 + 900 + i, "n": 40 if thorough else 8})
     nc = 20000 if thorough else 300
@@ -100,7 +109,7 @@ def build_config(app, rng, force=None):
             getattr(b, f"with_args_from_{k}")(getattr(trig, f"args_from_{k}"))
     target = app.task(trig.target, triggers=[b])
     app.register_deferred_triggers()
-    return {"kinds": kinds, "logic": logic, "providers": bool(providers and (len(kinds) == 1 or logic == "or")), "tasks": {"src_ok": src_ok, "src_fail": src_fail, "src_other": src_other, "target": target}}
+    return {"kinds": kinds, "logic": logic, "builder": b, "providers": bool(providers and (len(kinds) == 1 or logic == "or")), "tasks": {"src_ok": src_ok, "src_fail": src_fail, "src_other": src_other, "target": target}}
 
 
 def make_occurrence(app, cfg, kind, n, ctx):
@@ -240,9 +249,9 @@ def run_conc(case, V, hooks, distinct):
         # a second "runner process": its own app object and trigger instance (own local cache) on the same stores
         if backend == "sqlite":
             app2 = make_app(backend, db, app_id=f"c13c{backend}", cached_status_time=0.0)
-            build_config(app2, random.Random(1), force={"n": 1, "kinds": ["event"], "logic": "default" if logic == "single" else "or", "providers": True})
+            cfg2 = build_config(app2, random.Random(1), force={"n": 1, "kinds": ["event"], "logic": "default" if logic == "single" else "or", "providers": True})
         else:
-            app2 = app   # in-memory stores live in the app object: two loop threads of one process
+            app2, cfg2 = app, cfg   # in-memory stores live in the app object: two loop threads of one process
         ctxs = [runner_ctx("R", "loop-0"), runner_ctx("R", "loop-1")]
         if case.get("warm", False):
             # not a fresh store: an earlier occurrence was already served (claims, cleared conditions and caches are populated)
@@ -272,6 +281,12 @@ def run_conc(case, V, hooks, distinct):
             app.trigger.emit_event("c13_event", {"token": "ev-late"})
         if case.get("reporter", True):
             sc.spawn("reporter", reporter)
+
+        def registrar():
+            # another runner (re)starts while the loops run: registering a task's triggers again replaces its stored definitions
+            app2.trigger.register_task_triggers(cfg2["tasks"]["target"], [cfg2["builder"]])
+        if case.get("registrar", False):
+            sc.spawn("registrar", registrar)
 
         def fin():
             flush_history(app)
@@ -315,6 +330,116 @@ def run_conc(case, V, hooks, distinct):
             # an exception that escapes a trigger loop iteration / an event report under some interleaving (the occurrence it was serving is lost or served late)
             etype = r["error"].split(":")[1].strip().split()[0] if ":" in r["error"] else "error"
             V.append({"sig": f"trigger-loop-raised:{etype}:{backend}", "what": r["error"][:400], "witness": base})
+        for sig, what, wit in (r.get("out") or []):
+            V.append({"sig": f"{sig}:{backend}", "what": what, "witness": {**wit, **base}})
+    return res.get("inconclusive")
+
+
+def run_conc_cron(case, V, hooks, distinct):
+    """Two runners poll the time-based triggers inside the same scheduled minute, under explored interleavings: the minute yields
+    one occurrence and one launch, on a fresh store (the cron never fired) as well as on a warm one (the previous minute was served)."""
+    from vlib import sched as S, shims as SH
+    from pynenc.trigger.conditions.cron import CronCondition
+    from pynenc.trigger.trigger_builder import TriggerBuilder
+    from vtasks import trig
+    backend, warm = case["backend"], case["warm"]
+    td = TmpDir()
+    counter = {"n": 0}
+    minute = datetime(2025, 3, 3, 10, 17, 0, tzinfo=UTC)
+
+    def scenario(sc):
+        counter["n"] += 1
+        db = td.db(f"cc{counter['n'] % 30}.sqlite")
+        for ext in ("", "-wal", "-shm"):
+            try:
+                os.remove(db + ext)
+            except FileNotFoundError:
+                pass
+
+        def instance():
+            a = make_app(backend, db, app_id=f"c13cc{backend}", cached_status_time=0.0)
+            b = TriggerBuilder()
+            b.add_condition(CronCondition("* * * * *", check_window_seconds=60, min_interval_seconds=50, precision_tolerance_seconds=30))
+            t_ = a.task(trig.cron_target, triggers=[b])
+            a.register_deferred_triggers()
+            return a, t_
+        app, target = instance()
+        app2 = instance()[0] if backend == "sqlite" else app
+        ctxs = [runner_ctx("R", "loop-0"), runner_ctx("R", "loop-1")]
+
+        def quiet_iteration(at):
+            """one loop iteration whose own time-based poll happens at the (virtual) instant `at`, not at the wall-clock time"""
+            real = app.trigger.check_time_based_triggers
+            app.trigger.check_time_based_triggers = lambda current_time=None: real(current_time=at)
+            set_thread_ctx(app, ctxs[0])
+            try:
+                app.trigger.trigger_loop_iteration()
+            finally:
+                clear_thread_ctx(app)
+                del app.trigger.check_time_based_triggers
+        base_launches = 0
+        if warm:
+            app.trigger.check_time_based_triggers(current_time=minute - timedelta(seconds=57))
+            quiet_iteration(minute - timedelta(seconds=56))
+            base_launches = len(list(app.orchestrator.get_task_invocation_ids(target.task_id)))
+        before = set(app.trigger.get_valid_conditions())
+        flush_history(app)
+
+        def poll(i):
+            a = (app, app2)[i]
+            pt = minute + timedelta(seconds=3.0 + 0.4 * i)
+
+            def body():
+                set_thread_ctx(a, ctxs[i])
+                try:
+                    a.trigger.check_time_based_triggers(current_time=pt)
+                finally:
+                    clear_thread_ctx(a)
+            return body
+        sc.spawn("poll0", poll(0))
+        sc.spawn("poll1", poll(1))
+
+        def fin():
+            flush_history(app)
+            occ = [k for k in app.trigger.get_valid_conditions() if k not in before]
+            quiet_iteration(minute + timedelta(seconds=5))
+            n_l = len(list(app.orchestrator.get_task_invocation_ids(target.task_id))) - base_launches
+            out = []
+            state = "warm" if warm else "never-fired"
+            if warm and base_launches != 1:
+                return None    # the warm-up did not serve the previous minute: nothing to conclude from this run
+            hooks["conc_cron_conclusive"] += 1
+            if len(occ) != 1:
+                out.append((f"cron:{'two-occurrences-for-one-minute' if len(occ) > 1 else 'tick-missed'}:concurrent-polls:{state}",
+                            f"{backend}: two runners polled inside one scheduled minute, {len(occ)} occurrences recorded", {"occurrences": len(occ)}))
+            if n_l != 1:
+                out.append((f"occurrence-{'not-launched' if n_l == 0 else 'launched-more-than-once'}:cron:concurrent-polls:{state}",
+                            f"{backend}: one scheduled minute polled by two runners led to {n_l} launches", {"launches": n_l}))
+            return out or None
+        return fin
+
+    shims = SH.Shims() if backend == "mem" else SH.Shims(threading_modules=["pynenc.state_backend.base_state_backend"], time_modules=["pynenc.util.sqlite_utils"])
+    lines = ["pynenc.trigger.mem_trigger:MemTrigger.*"] if backend == "mem" else None
+    try:
+        res = S.explore(scenario, strategy=case["strategy"], max_preemptions=case.get("p", 1), n=case.get("count", 50), seed=case["seed"],
+                        sql=(backend == "sqlite"), lines=lines, shims=shims, max_steps=8000, time_budget=case.get("budget"))
+    finally:
+        td.close()
+    hooks["conc_schedules"] += res["schedules"]
+    hooks["conc_cron_schedules"] += res["schedules"]
+    hooks["cron_polls"] += 2 * res["schedules"]
+    for k in ("occurrences", "loop_iterations", "launches_attributed"):
+        hooks[k] += 0
+    hooks["loop_iterations"] += res["schedules"]
+    for s_ in res["signatures_nontrivial"]:
+        distinct.append(["conccron", backend, warm, s_])
+    for r in res["results"]:
+        base = {"backend": backend, "warm": warm, "choices": r["choices"], "trace_tail": r["trace"][-30:]}
+        if r.get("deadlock"):
+            V.append({"sig": f"deadlock:{backend}", "what": "every live actor is blocked", "witness": base})
+        if r.get("error"):
+            etype = r["error"].split(":")[1].strip().split()[0] if ":" in r["error"] else "error"
+            V.append({"sig": f"cron-poll-raised:{etype}:{backend}", "what": r["error"][:400], "witness": base})
         for sig, what, wit in (r.get("out") or []):
             V.append({"sig": f"{sig}:{backend}", "what": what, "witness": {**wit, **base}})
     return res.get("inconclusive")
@@ -480,6 +605,8 @@ def run_case(case):
         run_acct(case, V, hooks, distinct)
     elif case["kind"] == "conc":
         inconc = run_conc(case, V, hooks, distinct)
+    elif case["kind"] == "conccron":
+        inconc = run_conc_cron(case, V, hooks, distinct)
     else:
         run_cron(case, V, hooks, distinct)
     seen, out = Counter(), []
